@@ -364,6 +364,23 @@ def evaluate(chk, calls, tag='cases'):
     return calls
 
 
+def margin_probe():
+    """outside the property's premise (start window not inside the image): recorded, not judged"""
+    from trackpy.refine.center_of_mass import refine_com_arr
+    img = (np.arange(100).reshape(10, 10) % 7 + 1).astype(np.int64)
+    seen = []
+    for st in ([[1, 5]], [[8, 5]]):
+        for e in ('python', 'numba'):
+            try:
+                with np.errstate(all='ignore'):
+                    r = refine_com_arr(img, img, (2, 2), np.array(st), engine=e, max_iterations=3)
+                seen.append('%s start %s: returns row %s' % (e, st[0], np.round(r[0, :3], 3).tolist()))
+            except Exception as ex:
+                seen.append('%s start %s: %s' % (e, st[0], type(ex).__name__))
+    return ("observation outside the premise (start closer than radius to the border, never produced by locate): " + '; '.join(seen) +
+            " -- the first evaluation is not clipped; the kernels index image[coord - radius + mask] unchecked (wraps around at the low border)")
+
+
 def jsonable(c):
     return {k: v for k, v in c.items() if not k.startswith('_')}
 
@@ -379,6 +396,7 @@ def run(chk):
         s['impl_python'] = None if c['_out']['python'] is None else c['_out']['python'].tolist()
         s['model_codes'] = c['_rows']
         chk.sample(json.loads(json.dumps(s, default=str).replace('NaN', 'null')))
+    chk.notes.append(margin_probe())
     chk.coverage['rule'] = ("refine_com_arr / refine_com with engine='python' and engine='numba' on integer and dyadic-float images "
                             "(blobs, noise, sparse, ramps, negative values; uint8/uint16/int64/float64), 2-D and 3-D, equal and per-axis radii 1-5, "
                             "max_iterations in {-3,0,1..20}, shift_thresh in {0,1/8,1/4,0.4,1/2,0.6,3/4,1}, characterize on/off, 1-5 starts per call "
